@@ -407,6 +407,55 @@ func run(r *harness.Run) {
 		})
 		r.Count("reuse_sequences", int64(len(seqs)*2))
 	}
+	// (4) events redacted in place between two calls of the public Allowed (a caller that learns of a redaction applies it to
+	// the event object it holds): the second verdict must be the verdict for freshly parsed copies of the redacted events -
+	// whatever Allowed keeps between calls (pools, memoised content) must not outlive a change of the objects it was given
+	for _, v := range []string{"8", "10", "12", "org.matrix.msc3787"} {
+		ver := gmsl.MustGetRoomVersion(gmsl.RoomVersion(v))
+		for _, p := range reusePairs(v) {
+			st, err := p.Sc.StatePDUs()
+			if err != nil {
+				continue
+			}
+			ev, err := p.Sc.EventPDU()
+			if err != nil {
+				continue
+			}
+			prov, _ := gmsl.NewAuthEvents(st)
+			if _, perr := safeAllowed(ev, prov); perr != nil {
+				continue
+			}
+			var freshSt []gmsl.PDU
+			ok := true
+			for _, e := range st {
+				if pn, _ := harness.Try(func() { e.Redact() }); pn {
+					ok = false
+					break
+				}
+				f, ferr := ver.NewEventFromTrustedJSONWithEventID(e.EventID(), e.JSON(), true)
+				if ferr != nil {
+					ok = false
+					break
+				}
+				freshSt = append(freshSt, f)
+			}
+			if !ok {
+				continue
+			}
+			r.Eval()
+			prov2, _ := gmsl.NewAuthEvents(st)
+			got, perr := safeAllowed(ev, prov2)
+			provF, _ := gmsl.NewAuthEvents(freshSt)
+			want, ferr := safeAllowed(ev, provF)
+			if perr != nil || ferr != nil {
+				continue
+			}
+			if got != want {
+				r.Violation(fmt.Sprintf("redacted-in-place:%s:%s", v, p.Name), fmt.Sprintf("room version %s, %q: after its auth events were redacted in place the event is %s; with freshly parsed copies of the same redacted events it is %s", v, p.Name, got, want), "none", nil)
+			}
+			r.Nontrivial("rip|" + v + "|" + p.Name + "|" + got)
+		}
+	}
 	fresh := map[string]string{}
 	for n, b := range pairsByVer["10"] {
 		fresh[n] = b.fresh
